@@ -20,6 +20,13 @@ pub uninterp spec fn chain_spec(f: Func, g: Func) -> Option<Func>;
 pub fn add_trace<T, F: FnOnce() -> String>(res: NRes<T>, thing: F, start: CodeLoc, end: CodeLoc) -> (r: NRes<T>)
     ensures res is Ok ==> r == res, res is Err ==> r is Err
 { unimplemented!() }
+impl NErr {
+    // core.rs: both are NErr::throw(format!(..type names..))
+    #[verifier::external_body]
+    pub fn argument_error_first(x: &Obj) -> (r: NErr) ensures err_class(r) == ErrClass::Throw { unimplemented!() }
+    #[verifier::external_body]
+    pub fn argument_error_2(x: &Obj, y: &Obj) -> (r: NErr) ensures err_class(r) == ErrClass::Throw { unimplemented!() }
+}
 impl Default for Obj { #[verifier::external_body] fn default() -> (r: Obj) ensures r == Obj::Null { unimplemented!() } }
 #[verifier::external_body]
 pub fn soft_from_utf8(bs: Vec<u8>) -> (r: Obj) { unimplemented!() }
